@@ -20,6 +20,7 @@ func init() {
 	commands["schemas-bfs"] = cmdSchemasBfs
 	commands["schemas-replay"] = cmdSchemasReplay
 	commands["schemas-path"] = cmdSchemasPath
+	commands["schemas-build"] = cmdSchemasBuild
 }
 
 // schemas-bfs: breadth-first search with the real machine for every record of
@@ -224,5 +225,28 @@ func cmdSchemasPath(args []string) int {
 		b, _ := json.Marshal(e)
 		fmt.Println(string(b))
 	}
+	return 0
+}
+
+// schemas-build: the schema builders (Extend / Set / Merge ...) called on an
+// enumerated input space; one ndjson event per call for TraceSchemaBuild.tla.
+func cmdSchemasBuild(args []string) int {
+	fs := flag.NewFlagSet("schemas-build", flag.ExitOnError)
+	out := fs.String("out", "", "output ndjson")
+	seed := fs.Int64("seed", 1, "seed")
+	n := fs.Int("n", 400, "random cases")
+	_ = fs.Parse(args)
+	f, err := os.Create(*out)
+	if err != nil {
+		fmt.Fprintln(os.Stderr, err)
+		return 2
+	}
+	defer f.Close()
+	k, err := schemas.RunBuilders(f, *seed, *n)
+	if err != nil {
+		fmt.Fprintln(os.Stderr, err)
+		return 2
+	}
+	fmt.Printf("{\"events\": %d}\n", k)
 	return 0
 }
